@@ -6,6 +6,7 @@
   (hand-built flattened metadata through the real `swagen.GenerateSpec`) and to the front end
   (source → IR) by the `proj` stream.
 -/
+import Gleece.Properties.Reduce
 import Gleece.Model.IR
 import Gleece.Lemmas.Assoc
 namespace Gleece.IR
